@@ -344,7 +344,7 @@ theorem prim_main (G : Graph) (Q : St → Prop)
     (hK : ∀ s r t chain, Q s → assoc r s.trans = none → walkFrom G s.trans r = .known t chain →
       Q { s with trans := enter chain t s.trans })
     (hA : ∀ s r v chain, Q s → assoc r s.trans = none → walkFrom G s.trans r = .ends v chain →
-      Q { trans := enter chain (refOf s.next) s.trans, next := s.next + 1, puts := s.puts })
+      Q { trans := enter chain (refOf s.next) s.trans, next := s.next + 1, puts := s.puts, tgtV := s.tgtV })
     (hP : ∀ s n v s', Q s → put s n v = .ok s' → Q s') :
     ∀ f : Nat,
       (∀ s o o' s', copyObj f G s o = .ok (o', s') → Q s → Q s') ∧
@@ -695,8 +695,9 @@ example : ∃ v, Follows G0 (3, 0) 1 v := by
 example : fuelFor G0 [.copyRef (2, 0)] = 180 := by decide +kernel
 
 
-/-- non-vacuity: `G0` is benign for the one-call program -/
-example : Benign G0 (allRefs G0 [.copyRef (2, 0)]) := by
+/-- non-vacuity: `G0` is benign for the one-call program, for every target (its stream names no
+    /Crypt filter) -/
+example (tv : Nat) : Benign G0 tv (allRefs G0 [.copyRef (2, 0)]) := by
   intro r hr
   have hmem : r ∈ [(3, 0), (2, 0), (4, 0), (2, 0), (9, 0), (5, 0), (6, 0), (2, 0)] := by
     have : allRefs G0 [.copyRef (2, 0)] = [(3, 0), (2, 0), (4, 0), (2, 0), (9, 0), (5, 0), (6, 0), (2, 0)] := by
@@ -706,11 +707,15 @@ example : Benign G0 (allRefs G0 [.copyRef (2, 0)]) := by
   rcases hmem with h | h | h | h | h | h | h | h <;> subst h
   all_goals first
     | exact ⟨_, rfl, trivial⟩
-    | (refine ⟨_, rfl, ?_, .dflt, rfl, by decide⟩
-       intro key hk val hv
-       rcases hk with e | e <;> subst e
-       · cases hv; exact ⟨_, rfl⟩
-       · cases hv)
+    | (refine ⟨_, rfl, ?_, ⟨.dflt, rfl, by decide⟩, ?_⟩
+       · intro key hk val hv
+         rcases hk with e | e <;> subst e
+         · cases hv; exact ⟨_, rfl⟩
+         · cases hv
+       · intro d hd
+         have e : specDict G0 [(keyFilter, .ref 6 0)] = some [(keyFilter, .name [65])] := rfl
+         rw [e] at hd; cases hd
+         rfl)
 
 
 /-- `copy_respects_aliases` applies to `G0`: the alias 3 and the object 4 share their copy -/
